@@ -40,6 +40,10 @@ type rtStore struct {
 	// holdLate: the held call is kept back BEFORE it reaches the storage and goes through (applied, answered) after `resume`
 	holdLate bool
 	reached  chan struct{}
+	// honourCtx: like a networked storage, every call is refused with the context's error when its context has ended
+	honourCtx  bool
+	failCreate int32 // fail this Create call (1-based ordinal) with a storage error, nothing applied
+	creates    int32
 	resume  chan struct{}
 	mu      sync.Mutex
 	okBy    map[string][]time.Time // Locker (receiver pointer of supportTimeout) -> times of its successful renewals
@@ -85,11 +89,31 @@ func (s *rtStore) Put(ctx context.Context, r kvs.Record) (kvs.Record, error) {
 	if renewalOwner() == "" {
 		return s.Storage.Put(ctx, r) // (not from a renewal: the harness's own writes)
 	}
-	return s.renewal(func() (kvs.Record, error) { return s.Storage.Put(ctx, r) })
+	return s.renewal(func() (kvs.Record, error) { return s.ctxCall(ctx, func() (kvs.Record, error) { return s.Storage.Put(ctx, r) }) })
 }
 
 func (s *rtStore) CasByVersion(ctx context.Context, r kvs.Record) (kvs.Record, error) {
-	return s.renewal(func() (kvs.Record, error) { return s.Storage.CasByVersion(ctx, r) })
+	return s.renewal(func() (kvs.Record, error) {
+		return s.ctxCall(ctx, func() (kvs.Record, error) { return s.Storage.CasByVersion(ctx, r) })
+	})
+}
+
+func (s *rtStore) ctxCall(ctx context.Context, call func() (kvs.Record, error)) (kvs.Record, error) {
+	if s.honourCtx && ctx.Err() != nil {
+		return kvs.Record{}, ctx.Err()
+	}
+	return call()
+}
+
+func (s *rtStore) Create(ctx context.Context, r kvs.Record) (string, error) {
+	n := atomic.AddInt32(&s.creates, 1)
+	if s.honourCtx && ctx.Err() != nil {
+		return "", ctx.Err()
+	}
+	if n == atomic.LoadInt32(&s.failCreate) {
+		return "", errors.New("storage temporarily unavailable (injected, nothing applied)")
+	}
+	return s.Storage.Create(ctx, r)
 }
 
 func (s *rtStore) renewal(call func() (kvs.Record, error)) (kvs.Record, error) {
@@ -779,6 +803,97 @@ func rtForeignTimerScenario(lease time.Duration) rtResult {
 	return res
 }
 
+// rtCtxDoneScenario: the lock is acquired with a context that only bounds the ACQUISITION (LockWithCtx / TryLock);
+// that context ends while the lock is held.  The storage refuses calls whose context has ended, as networked
+// storages do.  The holder (alive, storage answering) keeps its lock for three lease periods: a renewal must not
+// depend on the context the lock was acquired with.
+func rtCtxDoneScenario(lease time.Duration) rtResult {
+	res := rtResult{name: fmt.Sprintf("ctx-done-after-acquire lease=%v", lease)}
+	for _, how := range []string{"LockWithCtx", "TryLock"} {
+		st := &rtStore{Storage: inmem.New(), honourCtx: true}
+		ph := dist.NewKvsLockProvider(st, "/rt/")
+		pt := dist.NewKvsLockProvider(st, "/rt/")
+		dist.VerifSetLease(ph, lease)
+		dist.VerifSetLease(pt, lease)
+		h := ph.NewLocker("l")
+		third := pt.NewLocker("l").(tryLocker)
+		ctx, cancel := context.WithCancel(context.Background())
+		ok := false
+		if how == "TryLock" {
+			ok = h.(tryLocker).TryLock(ctx)
+		} else {
+			ok = h.(interface{ LockWithCtx(context.Context) error }).LockWithCtx(ctx) == nil
+		}
+		cancel()
+		if ok {
+			t0 := time.Now()
+			bg := context.Background()
+			for time.Since(t0) < 3*lease && res.bad == "" {
+				if third.TryLock(bg) {
+					res.bad = fmt.Sprintf("%s: a contender acquired the lock %v after the holder did, while the holder (alive, storage answering) still held it — the context the lock was acquired with had ended (renewal calls=%d ok=%d)", how, time.Since(t0).Round(time.Millisecond), atomic.LoadInt32(&st.casCalls), atomic.LoadInt32(&st.casOK))
+					third.Unlock()
+				} else if it, err := st.ListKeys(bg, "*"); err == nil && !it.HasNext() {
+					res.bad = fmt.Sprintf("%s: the record of the held lock is gone %v after it was acquired (lease %v) — the context the lock was acquired with had ended (renewal calls=%d ok=%d)", how, time.Since(t0).Round(time.Millisecond), lease, atomic.LoadInt32(&st.casCalls), atomic.LoadInt32(&st.casOK))
+				}
+				time.Sleep(lease / 20)
+			}
+			h.Unlock()
+		} else {
+			res.bad = how + " with a live context on a free lock did not acquire"
+		}
+		res.info += fmt.Sprintf("%s: renewals=%d ok=%d; ", how, atomic.LoadInt32(&st.casCalls), atomic.LoadInt32(&st.casOK))
+		ph.Shutdown()
+		pt.Shutdown()
+		if res.bad != "" {
+			break
+		}
+	}
+	return res
+}
+
+// rtTryFailureScenario: a TryLock that FAILS — because its context had already ended, or because the storage refused
+// the Create with an error — returns false and leaves nothing behind: the same Locker acquires at once afterwards
+// (TryLock, then Lock after an Unlock), and so does another Locker.
+func rtTryFailureScenario(time.Duration) rtResult {
+	res := rtResult{name: "trylock-failure"}
+	for _, why := range []string{"context ended", "storage error"} {
+		st := &rtStore{Storage: inmem.New(), honourCtx: true}
+		if why == "storage error" {
+			st.failCreate = 1
+		}
+		p := dist.NewKvsLockProvider(st, "/rt/")
+		l := p.NewLocker("l").(tryLocker)
+		ctx, cancel := context.WithCancel(context.Background())
+		if why == "context ended" {
+			cancel()
+		}
+		if l.TryLock(ctx) {
+			res.bad = fmt.Sprintf("TryLock reports success although its Create failed (%s)", why)
+			l.Unlock()
+		}
+		cancel()
+		if res.bad == "" {
+			got := make(chan bool, 1)
+			go func() { got <- l.TryLock(context.Background()) }()
+			select {
+			case ok := <-got:
+				if !ok {
+					res.bad = fmt.Sprintf("a TryLock failed (%s); nobody holds the lock and the storage is empty, yet the SAME Locker's next TryLock fails: the failed attempt kept the Locker's token / counter", why)
+				} else {
+					l.Unlock()
+				}
+			case <-time.After(2 * time.Second):
+				res.bad = fmt.Sprintf("a TryLock failed (%s); the same Locker's next TryLock did not return within 2 s", why)
+			}
+		}
+		p.Shutdown()
+		if res.bad != "" {
+			break
+		}
+	}
+	return res
+}
+
 // rtGuard runs a real-time scenario under the call watchdog: a scenario that wedges (a Lock / Unlock that never
 // returns) ends the run with `mon HANG` instead of hanging the check.
 func rtGuard(ctx *Ctx, f func(time.Duration) rtResult) func(time.Duration) rtResult {
@@ -909,6 +1024,32 @@ func runLockRT(ctx *Ctx) {
 			ctx.R.Stats.Notes = append(ctx.R.Stats.Notes, "timing flake discarded: "+ra.name+": "+ra.bad)
 			ra.bad = ""
 		}
+	}
+	rcx := rtGuard(ctx, rtCtxDoneScenario)(lease)
+	if rcx.bad != "" {
+		if r2 := rtGuard(ctx, rtCtxDoneScenario)(2 * lease); r2.bad == "" {
+			ctx.R.Stats.Notes = append(ctx.R.Stats.Notes, "timing flake discarded: "+rcx.name+": "+rcx.bad)
+			rcx.bad = ""
+		} else {
+			rcx.bad = r2.bad
+		}
+	}
+	ctx.R.Case("realtime")
+	ctx.R.Nontrivial("ctx-done-after-acquire")
+	ctx.R.Op("scenario ctx-done-after-acquire-1", "ok")
+	ctx.R.Comment(rcx.name + ": " + rcx.info)
+	if rcx.bad != "" {
+		ctx.R.Quiet("mon C05-lease-kept-while-held", rcx.name+": "+rcx.bad)
+		if strings.Contains(rcx.bad, "acquired the lock") {
+			ctx.R.Quiet("mon C01-at-most-one-holder", rcx.name+": "+rcx.bad)
+		}
+	}
+	rtf := rtGuard(ctx, rtTryFailureScenario)(lease)
+	ctx.R.Case("realtime")
+	ctx.R.Nontrivial("trylock-failure")
+	ctx.R.Op("scenario trylock-failure-1", "ok")
+	if rtf.bad != "" {
+		ctx.R.Quiet("mon C04-no-residue", rtf.name+": "+rtf.bad)
 	}
 	rl := rtGuard(ctx, rtLateRenewalScenario)(lease)
 	if rl.bad != "" {
